@@ -145,6 +145,17 @@ class StmtMixin:
     # ------------------------------------------------------------------
     def exec_Assign(self, st, s):
         out = []
+        s._pyvc_rhs_field_root = None
+        if len(s.targets) == 1 and isinstance(s.targets[0], ast.Attribute) and isinstance(s.value, ast.Attribute):
+            n_obl = len(self.obls)
+            try:
+                pl = self.try_place(st.copy(), s.value)
+            except OutsideSubset:
+                pl = None
+            del self.obls[n_obl:]
+            if pl is not None and len(pl) == 1 and isinstance(pl[0][1], Place) and pl[0][1].root[0] == 'field' \
+                    and not pl[0][1].path:
+                s._pyvc_rhs_field_root = pl[0][1].root[1]
         for s2, v in self.eval_rhs(st, s.value, s.targets):
             if not normal(s2):
                 out.append(s2)
@@ -311,6 +322,16 @@ class StmtMixin:
                 base = self.unwrap_opt(s2, self.need_value(base), tgt, '.' + tgt.attr)
                 if not isinstance(base.ty, TRef):
                     raise OutsideSubset('attribute store on ' + str(base.ty))
+                src_root = getattr(node, '_pyvc_rhs_field_root', None)
+                if src_root is not None and self.spec_depth == 0 and not self.in_contract \
+                        and isinstance(v, SV) and self.is_container_type(v.ty):
+                    # `o.f = p.g` with g a list / dict field: in Python both objects now hold the SAME
+                    # container (containers have value semantics here, so this must not happen
+                    # between different objects)
+                    self.oblige(s2, src_root == base.t, 'ownership', 'container-not-shared-between-objects', node=node,
+                                carries='C13',
+                                info={'claim': 'the list / dict stored in .%s is not the container another object '
+                                               'keeps in a field (a copy is stored, not an alias)' % tgt.attr})
                 self.write_field(s2, base, base.ty.cls, tgt.attr, self.need_value(v), tgt)
                 out.append(s2)
             return out
